@@ -117,7 +117,8 @@ def evaluate(proto: onnx.ModelProto, seed: int, override=frozenset()):
     rng = np.random.default_rng(seed)
     outs = []
     for cond in (True, False):
-        feeds = {"in1": rng.normal(size=2).astype(np.float32), "in2": rng.normal(size=2).astype(np.float32), "cond": np.array(cond)}
+        feeds = {"in1": rng.normal(size=rewrite.IN_SHAPE).astype(np.float32), "in2": rng.normal(size=rewrite.IN_SHAPE).astype(np.float32),
+                 "cond": np.array(cond)}
         names = {i.name for i in proto.graph.input}
         feeds = {k: v for k, v in feeds.items() if k in names}
         # initializers listed as inputs are overridable: feed them too (same values for the same name)
@@ -305,6 +306,24 @@ def load_programs(out_path: str, cap: int | None, seed: int):
                 progs.append(line)
     progs.sort()        # TLC's output order depends on worker scheduling; the sample must not
     if cap is not None and len(progs) > cap:
+        # stratified by the multiset of main-graph operators: every operator combination of the catalogue is
+        # represented, the seed decides which members of a stratum are taken
         random.Random(seed).shuffle(progs)
-        progs = progs[:cap]
+        strata = {}
+        for l in progs:
+            P = json.loads(json.loads(l))
+            key = tuple(sorted(n["op"] + ("*" if n["attr"] else "") for n in P["g"][0]["nodes"]))
+            strata.setdefault(key, []).append(l)
+        picked, depth = [], 0
+        keys = sorted(strata)
+        while len(picked) < cap:
+            took = False
+            for k in keys:
+                if depth < len(strata[k]) and len(picked) < cap:
+                    picked.append(strata[k][depth])
+                    took = True
+            if not took:
+                break
+            depth += 1
+        progs = sorted(picked)
     return [(i, json.loads(json.loads(l))) for i, l in enumerate(progs)]
